@@ -44,7 +44,7 @@ CLAIMS = {
    "DESIGN.md section 4 C09, E6"),
  "C15": ("other",
    "typestate / ordering rules by dominance and reachability on go/ssa of package ios (who-may-call of the change sender over the call graph, stores to the reloadActive flag, def-use chain banner-strip -> echo check, accumulation of the re-arm flag)",
-   "Decides the structural core on every run: every IOS change command is sent by the one sender whose call sites are all dominated by arming the reload and a deferred cancel; configuration mode lies inside the guard; write memory is a plain call after the guarded function returned (cancel has run), nothing is sent in between; reloadActive is raised/lowered only where reload in N / reload cancel are sent; banners are stripped before the echo check; after waiting for the asynchronous SHUTDOWN ABORTED text the prompt behind it is consumed before the next command is sent; the one-minute verdict derives from the stripped banner and is accumulated over both halves of a joined command and triggers the re-arm; the device's answer to both halves of every change command decides over the abort on every path (the verdict is not overwritten), so write memory is not reached after a rejected command. One genuine defect found by this rule was repaired (fix: 6536eea). Not decided: all byte offsets of an asynchronous banner.",
+   "Decides the structural core on every run: every IOS change command is sent by the one sender whose call sites are all dominated by arming the reload and a deferred cancel; configuration mode lies inside the guard; write memory is a plain call after the guarded function returned (cancel has run), nothing is sent in between; reloadActive is raised/lowered only where reload in N / reload cancel are sent; banners are stripped before the echo check; after waiting for the asynchronous SHUTDOWN ABORTED text the prompt behind it is consumed before the next command is sent; the one-minute matcher accepts both spellings IOS prints and the one-minute verdict derives from the stripped banner and is accumulated over both halves of a joined command and triggers the re-arm; the device's answer to both halves of every change command decides over the abort on every path (the verdict is not overwritten), so write memory is not reached after a rejected command. One genuine defect found by this rule was repaired (fix: 6536eea). Not decided: all byte offsets of an asynchronous banner.",
    "Trusted: go/ssa, call graph; banner forms are those bannerRe matches.",
    "DESIGN.md section 4 C15"),
  "C03": ("other",
@@ -54,12 +54,12 @@ CLAIMS = {
    "DESIGN.md section 4 C03-C05"),
  "C04": ("other",
    "field-access sets on go/ssa over call-graph closures (R-HC, R-FC) for package nsx; guard-set tables for decision sites and for every store into a planner mark; accumulator-growth rule; loop-carried-state audit",
-   "Only the structural part of convergence is decided: change-state agreement between GetChanges, HasChanges, ShowChanges and ApplyCommands; MergeSpoc merges policies, groups and services and the planner reads all three kinds of both configurations; unique-id generation and every store into needed / nameOnDevice keep their audited controlling conditions (a device group is taken over only if not already needed); collected requests are never dropped; no unaudited state crosses loop iterations; the parts of every request URL and body come from the audited side of the device/target pair (the URL of an in-place group edit names the device group and the device's expression id); the group predicate of the rule comparator is symmetric; the rule comparator (or a comparison key built from a rule) takes every exported field into account. Convergence of rule/group equalisation is NOT decided (needs executing the REST calls on a manager model).",
+   "Only the structural part of convergence is decided: change-state agreement between GetChanges, HasChanges, ShowChanges and ApplyCommands; MergeSpoc merges policies, groups and services and the planner reads all three kinds of both configurations; unique-id generation and every store into needed / nameOnDevice keep their audited controlling conditions (a device group is taken over only if not already needed); collected requests are never dropped; the planner's phases (incl. the final removal of unused services and groups) run on every path; no unaudited state crosses loop iterations; the parts of every request URL and body come from the audited side of the device/target pair (the URL of an in-place group edit names the device group and the device's expression id); the group predicate of the rule comparator is symmetric; the rule comparator (or a comparison key built from a rule) takes every exported field into account. Convergence of rule/group equalisation is NOT decided (needs executing the REST calls on a manager model).",
    "Trusted: go/ssa, call graph.",
    "DESIGN.md section 4 C03-C05"),
  "C05": ("other",
    "field-access sets on go/ssa incl. trigger sub-fields of the struct-valued change (R-HC), R-FC for package linux; guard-set table for the route decisions; loop-carried-state (header phi) audit of the parsers",
-   "Only the structural part is decided: every sub-field of the change that ApplyCommands acts on (routes, iptables) is read by HasChanges and ShowChanges — necessary for 'no change is reported only for an equivalent device' and invisible to drc FILE1 FILE2 tests; MergeSpoc and diffConfig handle both iptables and routes; the route delete/replace decisions keep their audited conditions; the iptables normaliser equates spellings only under its audited conditions, with its audited operations and constants; in the iptables/route parsers no unaudited variable keeps its value from one loop iteration to the next (a per-option flag without reset changes what is compared); no Trim cutset is a suffix mistaken for a character set; the option maps of two rules are compared behind a symmetric key-set check; no effectful call is skipped by short-circuit evaluation on a sibling call. Normaliser equivalence and route replacement semantics are NOT decided.",
+   "Only the structural part is decided: every sub-field of the change that ApplyCommands acts on (routes, iptables) is read by HasChanges and ShowChanges — necessary for 'no change is reported only for an equivalent device' and invisible to drc FILE1 FILE2 tests; MergeSpoc and diffConfig handle both iptables and routes; the route delete/replace decisions keep their audited conditions; the iptables normaliser equates spellings only under its audited conditions, with its audited operations and constants, and every conditional rewrite of a parsed value to a constant in the Linux parsers is audited; in the iptables/route parsers no unaudited variable keeps its value from one loop iteration to the next (a per-option flag without reset changes what is compared); no Trim cutset is a suffix mistaken for a character set; the option maps of two rules are compared behind a symmetric key-set check; no effectful call is skipped by short-circuit evaluation on a sibling call. Normaliser equivalence and route replacement semantics are NOT decided.",
    "Trusted: go/ssa, call graph.",
    "DESIGN.md section 4 C03-C05"),
  "C07": ("other",
@@ -69,12 +69,12 @@ CLAIMS = {
    "DESIGN.md section 4 C07"),
  "C08": ("other",
    "ordered-phase rules by reachability within loop iterations on go/ssa; who-may-call and store enumeration for config-mode bookkeeping; constant agreement; string-pattern evaluation (must-pass-sanitiser); guard-set table",
-   "Decides necessary conditions of 'executable when sent': create-before-use and delete-after-last-use phase orders in the PAN-OS, NSX and Cisco planners; every emission goes through the helpers that maintain the configuration mode (two audited exceptions followed by a helper); the IOS numbering constants (resequence step, multipliers, insert bound) are one integer; fresh crypto map sequence numbers come from a counter that is advanced after every hand-out; every non-constant part of a PAN-OS command is URL-escaped; the deletion-dependency conditions are the audited ones; every store into a planner mark (PAN-OS, NSX, Cisco) lies at an audited site with its audited conditions (marks decide which objects are created before the rules that use them); no unaudited loop-carried state in the Cisco parser/planner. Referential validity of a concrete script is NOT decided.",
+   "Decides necessary conditions of 'executable when sent': create-before-use and delete-after-last-use phase orders in the PAN-OS, NSX and Cisco planners; every emission goes through the helpers that maintain the configuration mode (two audited exceptions followed by a helper); the IOS numbering constants (resequence step, multipliers, insert bound) are one integer; fresh crypto map sequence numbers come from a counter that is advanced after every hand-out; the configuration-mode variable is changed only by the emitting helpers; the flags that choose between incremental change and full replacement are set exactly under their audited conditions; every non-constant part of a PAN-OS command is URL-escaped; the deletion-dependency conditions are the audited ones; every store into a planner mark (PAN-OS, NSX, Cisco) lies at an audited site with its audited conditions (marks decide which objects are created before the rules that use them); no unaudited loop-carried state in the Cisco parser/planner. Referential validity of a concrete script is NOT decided.",
    "Trusted: go/ssa, call graph, audited guard rows.",
    "DESIGN.md section 4 C08, Appendix B"),
  "C14": ("other",
    "ordered-phase rules by reachability within loop iterations on go/ssa (insert/move before reverse before delete; resequence first/last; routes add before delete; sort before compare); store-vs-use phase rule for the IOS block marking; value-shape rule for joined delete+add lines; single-pass fill rule for the delete/insert lists; loop-carried-state audit",
-   "Decides the order skeleton that the safety argument rests on: in both ACL planners every insert/move precedes the reversal of the delete list, which precedes every delete, and the reversed list is the one walked; IOS resequence brackets all numbered commands; the block-id marking is complete before any move decision and block numbers (also of split-off parts) come from a running counter; route inserts/replacements precede deletes for Cisco and Linux, routes are sorted more-specific-first before comparison; moves and same-destination route replacements are one joined line; the delete list (and the ASA insert list) is filled in one pass over the ascending diff ranges, so reversing it is bottom-up. Packet-level verdicts of intermediate ACLs are NOT decided.",
+   "Decides the order skeleton that the safety argument rests on: in both ACL planners every insert/move precedes the reversal of the delete list, which precedes every delete, and the reversed list is the one walked; IOS resequence brackets all numbered commands; the block-id marking is complete before any move decision and block numbers (also of split-off parts) come from a running counter; the flags that send an ACL to full replacement instead of the incremental planner keep their audited conditions; route inserts/replacements precede deletes for Cisco and Linux, routes are sorted more-specific-first before comparison; moves and same-destination route replacements are one joined line; the delete list (and the ASA insert list) is filled in one pass over the ascending diff ranges, so reversing it is bottom-up. Packet-level verdicts of intermediate ACLs are NOT decided.",
    "Trusted: go/ssa, call graph.",
    "DESIGN.md section 4 C14, Appendix B"),
  "C18": ("other",
